@@ -86,6 +86,10 @@ func (s *Server) DidSave(ctx context.Context, params *lsp.DidSaveTextDocumentPar
 }
 
 func (s *Server) DidChange(ctx context.Context, params *lsp.DidChangeTextDocumentParams) error {
+	if len(params.ContentChanges) == 0 {
+		// Nothing has changed (we ask for full document syncs).
+		return nil
+	}
 	filename := params.TextDocument.URI.Filename()
 	content := params.ContentChanges[0].Text
 	s.docs[filename] = &document{
